@@ -120,6 +120,7 @@ class _State:
         self.overlap_unspecified = 0
         self.in_function = 0
         self.funcs_entered = set()
+        self.uninit = set()       # atoms standing for never-written memory (torch.empty / new_empty / empty_like)
 
 
 STATE = _State()
@@ -843,8 +844,8 @@ class Tensor:
         a = _full_obj(sh, P.ONE) if d.kind == 'f' else np.ones(sh, dtype=d.npf)
         return Tensor(a, d, requires_grad=requires_grad)
 
-    def new_empty(self, *sh, **kw):
-        return self.new_zeros(*sh, **kw)
+    def new_empty(self, *sh, dtype=None, device=None, requires_grad=False):
+        return _uninit(_shape_arg(sh), dtype or self.dtype, requires_grad)
 
     def new_full(self, sh, v, dtype=None, device=None, requires_grad=False):
         d = dtype or self.dtype
@@ -1118,8 +1119,22 @@ def ones(*sh, dtype=None, device=None, requires_grad=False):
     return Tensor(a, d, requires_grad=requires_grad)
 
 
-def empty(*sh, **kw):
-    return zeros(*sh, **kw)
+def _uninit(sh, d, requires_grad=False):
+    """torch.empty contract: the contents are arbitrary. Floating tensors get one fresh input atom per element (recorded in
+    STATE.uninit), so that any dependence of a result on memory that was never written is visible to the checks."""
+    sh = tuple(int(v) for v in sh)
+    if d.kind != 'f':
+        return Tensor(np.zeros(sh, dtype=d.npf), d)
+    a = np.empty(sh, dtype=object)
+    for idx in np.ndindex(*sh):
+        i = P.ATOMS.new('in', ('uninit', idx))
+        STATE.uninit.add(i)
+        a[idx] = Poly.var(i)
+    return Tensor(a, d, requires_grad=requires_grad)
+
+
+def empty(*sh, dtype=None, device=None, requires_grad=False, **kw):
+    return _uninit(_shape_arg(sh), dtype or get_default_dtype(), requires_grad)
 
 
 def full(sh, v, dtype=None, device=None, requires_grad=False):
@@ -1136,8 +1151,8 @@ def ones_like(t, dtype=None, device=None, requires_grad=False):
     return ones(*t.shape, dtype=dtype or t.dtype, requires_grad=requires_grad)
 
 
-def empty_like(t, **kw):
-    return zeros_like(t, **kw)
+def empty_like(t, dtype=None, **kw):
+    return _uninit(tuple(t.a.shape), dtype or t.dtype)
 
 
 def full_like(t, v, dtype=None, **kw):
